@@ -14,9 +14,10 @@ import ast
 
 from .. import kafka_schema as KS
 from .. import wireshape as W
-from ..model import unparse, walk_body_shallow
+from ..model import ShapeError, unparse, walk_body_shallow
 from .c02 import magic_arms, wrapper_offset_rule
 from .c04 import KCQ, diff_terms, tmatch
+from .util import *  # noqa: F401,F403
 from .util import at, const_value, call_name, call_recv, calls_in, need, norm, where
 
 TECHNIQUE = "wire-grammar extraction of decoders vs hand-transcribed schema with leaf->struct-attribute flow; unpack-shape " \
@@ -73,6 +74,39 @@ def used_after(func, name, stmt, arity=None):
     return False
 
 
+def resolve_decoder(ctx, name, var="api_version"):
+    """The function that holds the layout a schema entry describes, with the constant arguments it is specialised
+    for.  `decode_x` is the method itself; `decode_x.vN` is what decode_x hands the reply to when the negotiated
+    version is N: the nested per-version decoder its dispatch on the version returns for N (whatever it is called),
+    together with the constants the dispatch passes (a format, a flag)."""
+    from ..model import AnalysisError
+    prog = ctx.prog
+    if ".v" not in name:
+        return ctx.func("%s.%s" % (KCQ, name)), None
+    base, ver = name.rsplit(".v", 1)
+    dp = ctx.func("%s.%s" % (KCQ, base))
+    cf = ctx.cfg(dp)
+    reach = nodes_reached_with(cf, {var: int(ver)})
+    cands = []
+    for i in sorted(reach):
+        n = cf.nodes[i]
+        if n.kind == "stmt" and isinstance(n.stmt, ast.Return) and isinstance(n.stmt.value, ast.Call):
+            g = prog.resolve_callable(dp, n.stmt.value.func)
+            if g is not None and g.parent is dp:
+                cands.append((g, n.stmt.value))
+    if len(cands) != 1:
+        raise ShapeError("%s does not hand a version-%s reply to exactly one nested decoder" % (dp.qname, ver))
+    g, call = cands[0]
+    consts = {}
+    for i, a in enumerate(call.args):
+        if i < len(g.params) and (isinstance(a, ast.Constant) or (isinstance(a, ast.Name) and module_const(dp, a.id) is not None)):
+            consts[g.params[i]] = a
+    for k in call.keywords:
+        if k.arg in g.params and (isinstance(k.value, ast.Constant) or (isinstance(k.value, ast.Name) and module_const(dp, k.value.id) is not None)):
+            consts[k.arg] = k.value
+    return g, (consts or None)
+
+
 def run(ctx):
     prog = ctx.prog
 
@@ -80,8 +114,8 @@ def run(ctx):
     r = ctx.rule("R1", "each response decoder's grammar and leaf->attribute flow equal the schema", 15, "F")
     envs = {}
     for name, want in sorted(KS.RESPONSES.items()):
-        f = ctx.func("%s.%s" % (KCQ, name))
-        terms, env = W.decoder_terms(prog, f)
+        f, consts_ = resolve_decoder(ctx, name)
+        terms, env = W.decoder_terms(prog, f, consts_)
         envs[name] = (f, terms, env)
         terms = [t for t in terms if not (t[0] == "ALT" and not any(b for c, b in t[1]))]
         problem = diff_terms(terms, want, check_bind=False)
@@ -112,7 +146,7 @@ def run(ctx):
 
     # every element a counted loop reads is collected: nothing inside the loop decides to drop one
     for name in sorted(KS.RESPONSES):
-        f = ctx.func("%s.%s" % (KCQ, name))
+        f, _c = resolve_decoder(ctx, name)
         cfd_ = ctx.cfg(f)
         for ln in [n for n in cfd_.nodes if n.kind == "for" and isinstance(n.stmt.iter, ast.Call) and norm(n.stmt.iter.func) == "range"]:
             lbody = cfd_.reach([ln.id], avoid=[t for t, lab in cfd_.succ[ln.id] if lab == ("iter", False)])
